@@ -8,12 +8,21 @@
 //!   * completeness: a field set derived from one real value, with determinate year groups and a
 //!     documented sufficient combination, resolves to exactly that value; a derived set that is not
 //!     sufficient is reported as NotEnough;
-//!   * a second `set_*` of a field is accepted iff the stored values are equal.
+//!   * a second `set_*` of a field is accepted iff the stored values are equal;
+//!   * zones that are NOT fixed (`run_step_zones`): `to_datetime_with_timezone(&StepZone)` for a custom
+//!     `chrono::TimeZone` with one transition (fold or gap), field sets derived from real values inside
+//!     the fold / the gap / at the boundary seconds / far away, offset field absent / = o1 / = o2 /
+//!     neither, timestamp field absent / true / that of the other candidate / off by one.  Compared with
+//!     the model op `pr.tzstep` (Model/ParsedZone.lean), the zone itself with `pr.steplocal` /
+//!     `pr.steputc`; direct oracles: result offset == offset field, result instant == timestamp field,
+//!     result is one of `zone.from_local_datetime(resolved local)`, wall clock agrees with the fields,
+//!     and the expected resolution of derived sets (which candidate, NotEnough, Impossible).
 use super::c01::{gen_date, gen_year, yof, MAX_YEAR, MIN_YEAR};
 use super::c13::{dump_parsed, err_kind};
 use crate::ctx::*;
 use chrono::format::{ParseResult, Parsed};
-use chrono::{DateTime, Datelike, FixedOffset, NaiveDate, NaiveDateTime, NaiveTime, Timelike, Weekday};
+use chrono::offset::LocalResult;
+use chrono::{DateTime, Datelike, FixedOffset, NaiveDate, NaiveDateTime, NaiveTime, Offset, TimeZone, Timelike, Weekday};
 
 const WD: [Weekday; 7] =
     [Weekday::Mon, Weekday::Tue, Weekday::Wed, Weekday::Thu, Weekday::Fri, Weekday::Sat, Weekday::Sun];
@@ -783,6 +792,429 @@ fn run_set_twice(c: &mut Ctx) {
     }
 }
 
+// ---- a time zone with one transition -----------------------------------------------------------
+/// Offset `o1` (seconds east) for every instant before `t` (seconds since the epoch), `o2` from `t`
+/// on: `o1 > o2` gives a fold of `o1 - o2` seconds, `o1 < o2` a gap.  The Lean model is
+/// `StepZone` in lean/Chrono/Model/ParsedZone.lean: the two REQUIRED lookups below are defined there
+/// by the same formulas, and `from_local_datetime` is the trait's PROVIDED method on both sides (a
+/// candidate whose UTC reading leaves the representable range turns the whole result into `None`).
+#[derive(Clone, Copy, Debug, PartialEq, Eq)]
+struct StepZone {
+    t: i64,
+    o1: i32,
+    o2: i32,
+}
+#[derive(Clone, Copy, Debug, PartialEq, Eq)]
+struct StepOffset {
+    zone: StepZone,
+    off: FixedOffset,
+}
+impl Offset for StepOffset {
+    fn fix(&self) -> FixedOffset {
+        self.off
+    }
+}
+impl StepZone {
+    fn offset_at(&self, u: i64) -> i32 {
+        if u < self.t {
+            self.o1
+        } else {
+            self.o2
+        }
+    }
+    fn mk(&self, o: i32) -> StepOffset {
+        StepOffset { zone: *self, off: FixedOffset::east_opt(o).unwrap() }
+    }
+    /// local seconds `s` lie in the fold (two instants read `s`)
+    fn in_fold(&self, s: i64) -> bool {
+        s - (self.o1 as i64) < self.t && self.t <= s - (self.o2 as i64)
+    }
+}
+impl TimeZone for StepZone {
+    type Offset = StepOffset;
+    fn from_offset(offset: &StepOffset) -> StepZone {
+        offset.zone
+    }
+    fn offset_from_local_date(&self, local: &NaiveDate) -> LocalResult<StepOffset> {
+        self.offset_from_local_datetime(&local.and_time(NaiveTime::MIN))
+    }
+    fn offset_from_local_datetime(&self, local: &NaiveDateTime) -> LocalResult<StepOffset> {
+        let s = local.and_utc().timestamp();
+        match (s - (self.o1 as i64) < self.t, self.t <= s - (self.o2 as i64)) {
+            (true, true) => LocalResult::Ambiguous(self.mk(self.o1), self.mk(self.o2)),
+            (true, false) => LocalResult::Single(self.mk(self.o1)),
+            (false, true) => LocalResult::Single(self.mk(self.o2)),
+            (false, false) => LocalResult::None,
+        }
+    }
+    fn offset_from_utc_date(&self, utc: &NaiveDate) -> StepOffset {
+        self.offset_from_utc_datetime(&utc.and_time(NaiveTime::MIN))
+    }
+    fn offset_from_utc_datetime(&self, utc: &NaiveDateTime) -> StepOffset {
+        self.mk(self.offset_at(utc.and_utc().timestamp()))
+    }
+}
+fn szs(z: &DateTime<StepZone>) -> String {
+    format!("{} {}", sdt(&z.naive_utc()), z.offset().fix().local_minus_utc())
+}
+fn smapped(m: &LocalResult<DateTime<StepZone>>) -> String {
+    match m {
+        LocalResult::None => "none".into(),
+        LocalResult::Single(a) => format!("single {}", szs(a)),
+        LocalResult::Ambiguous(a, b) => format!("ambiguous {} {}", szs(a), szs(b)),
+    }
+}
+fn cands(m: &LocalResult<DateTime<StepZone>>) -> Vec<DateTime<StepZone>> {
+    match m {
+        LocalResult::None => vec![],
+        LocalResult::Single(a) => vec![a.clone()],
+        LocalResult::Ambiguous(a, b) => vec![a.clone(), b.clone()],
+    }
+}
+
+const MIN_TS: i64 = -8334601228800; // NaiveDateTime::MIN as a timestamp
+const MAX_TS: i64 = 8210266876799; // NaiveDateTime::MAX
+
+fn gen_step_zone(c: &mut Ctx) -> (StepZone, &'static str) {
+    let (o1, o2, kind) = match c.rng.below(10) {
+        0 => (7200, 3600, "fold"),
+        1 => (3600, 7200, "gap"),
+        2 => {
+            let o = gen_offset(c);
+            (o, o, "flat")
+        }
+        3 => {
+            // one-second fold / gap: the leap-second tolerance of the timestamp test matters here
+            let o = c.rng.range(-86398, 86398) as i32;
+            if c.rng.chance(1, 2) {
+                (o + 1, o, "fold")
+            } else {
+                (o, o + 1, "gap")
+            }
+        }
+        4 => *c.rng.pick(&[(86399, -86399, "fold"), (-86399, 86399, "gap"), (0, -1800, "fold"), (-1800, 0, "gap"), (1, -1, "fold")]),
+        _ => {
+            let a = gen_offset(c);
+            let b = gen_offset(c);
+            (a, b, if a > b { "fold" } else if a < b { "gap" } else { "flat" })
+        }
+    };
+    let t = match c.rng.below(10) {
+        0 | 1 => 1_635_642_000,
+        2 => 0,
+        3 => *c.rng.pick(&[MIN_TS + 3600, MIN_TS + 100_000, MAX_TS - 3600, MAX_TS - 100_000, MIN_TS, MAX_TS]),
+        4 => c.rng.range(-62_000_000_000, 250_000_000_000),
+        _ => c.rng.range(-3_000_000_000, 5_000_000_000),
+    };
+    (StepZone { t, o1, o2 }, kind)
+}
+
+/// `to_datetime_with_timezone` for zones with a transition
+fn run_step_zones(c: &mut Ctx) {
+    let n = c.n(40_000, 400_000);
+    for k in 0..n {
+        let (zone, kind) = gen_step_zone(c);
+        let (o1, o2) = (zone.o1 as i64, zone.o2 as i64);
+        let w = (o1 - o2).abs(); // width of the fold / gap
+        let near_end = zone.t < MIN_TS + 400_000 || zone.t > MAX_TS - 400_000;
+        // ---- where: an instant `u` (or, for the gap, a local second) relative to the transition ----
+        // local seconds of the fold: t+o2 ..< t+o1 (instants t-w ..< t first pass, t ..< t+w second pass)
+        let place = c.rng.below(8);
+        let mut gap_local: Option<i64> = None;
+        let u: i64 = match (place, kind) {
+            (0, "fold") => zone.t - 1 - c.rng.below(w as u64) as i64, // inside the fold, first pass
+            (1, "fold") => zone.t + c.rng.below(w as u64) as i64,      // inside the fold, second pass
+            (0 | 1, "gap") => {
+                gap_local = Some(zone.t + o1 + c.rng.below(w as u64) as i64);
+                zone.t
+            }
+            (2 | 3, _) => zone.t + *c.rng.pick(&[-1i64, 0, 1, -w, -w - 1, -w + 1, w, w - 1, w + 1, -2, 2]), // boundary seconds
+            (4, _) => zone.t + *c.rng.pick(&[-1i64, 1]) * c.rng.range(100_000, 2_000_000_000), // far away
+            (5, _) => zone.t + c.rng.range(-2 * w - 3, 2 * w + 3),
+            _ => zone.t + c.rng.range(-100_000, 100_000),
+        };
+        if u < MIN_TS + 90_000 || u > MAX_TS - 90_000 {
+            c.count("tzstep:skipped:instant-out-of-range");
+            continue;
+        }
+        let mut nano = gen_nano(c);
+        // ---- which fields ----
+        let mode = c.rng.below(10);
+        let mut m = [false; NF];
+        match mode {
+            0..=5 => {
+                // a complete date and time
+                for i in [HDIV, HMOD, MIN, SEC, NANO] {
+                    m[i] = true;
+                }
+                match c.rng.below(4) {
+                    0 => m[ORD] = true,
+                    1 => {
+                        m[WSUN] = true;
+                        m[WDAY] = true;
+                    }
+                    _ => {
+                        m[MONTH] = true;
+                        m[DAY] = true;
+                    }
+                }
+                m[YEAR] = true;
+            }
+            6 | 7 => {
+                // the timestamp alone (with or without the nanosecond)
+                m[TS] = true;
+                if c.rng.chance(1, 2) {
+                    m[NANO] = true;
+                } else {
+                    nano = 0;
+                }
+            }
+            _ => m = gen_mask(c),
+        }
+        let real_off = zone.offset_at(u);
+        let (l, real): (NaiveDateTime, bool) = match gap_local {
+            Some(s) => (DateTime::from_timestamp(s, nano).unwrap().naive_utc(), false),
+            None => {
+                let s = u + real_off as i64;
+                // a leap second needs the second field
+                if m[SEC] && s.rem_euclid(60) == 59 && c.rng.chance(1, 3) {
+                    nano += 1_000_000_000;
+                }
+                if !m[SEC] && mode >= 8 {
+                    // random masks: keep the fields a complete description of the value
+                    nano = if m[NANO] { nano } else { 0 };
+                }
+                (DateTime::from_timestamp(s, nano).unwrap().naive_utc(), true)
+            }
+        };
+        let ls = l.and_utc().timestamp();
+        let in_fold = zone.in_fold(ls);
+        let all = fields_of(&l, real_off);
+        let mut f: Fields = [None; NF];
+        for i in 0..NF {
+            if m[i] {
+                f[i] = all[i];
+            }
+        }
+        // ---- the offset field: absent / o1 / o2 / neither ----
+        let offv = c.rng.below(5);
+        f[OFF] = match offv {
+            0 | 1 => None,
+            2 => Some(o1),
+            3 => Some(o2),
+            _ => Some(match c.rng.below(4) {
+                0 => o1 + 1,
+                1 => o2 - 1,
+                2 => 0,
+                _ => gen_offset(c) as i64,
+            }),
+        };
+        // ---- the timestamp field: absent / true / the other candidate's / off by one / random ----
+        let other_u = if real_off as i64 == o1 { u + (o1 - o2) } else { u - (o1 - o2) };
+        let tsv = if m[TS] && mode >= 6 && mode <= 7 { 1 } else { c.rng.below(8) };
+        f[TS] = match tsv {
+            0 | 2 | 3 => None,
+            1 | 4 => Some(if real { u } else { ls - *c.rng.pick(&[o1, o2]) }),
+            5 => Some(other_u),
+            6 => Some(u + *c.rng.pick(&[1i64, -1])),
+            _ => Some(u + c.rng.range(-2 * w - 2, 2 * w + 2)),
+        };
+        let p = build(&f);
+        let dump = dump_parsed(&p);
+        let ztxt = format!("{} {} {}", zone.t, zone.o1, zone.o2);
+        let cls = if !real {
+            "gap"
+        } else if in_fold {
+            if real_off as i64 == o1 {
+                "fold-first"
+            } else {
+                "fold-second"
+            }
+        } else if (u - zone.t).abs() <= w + 2 {
+            "boundary"
+        } else {
+            "away"
+        };
+
+        // ---- the zone itself against its model ----
+        if k % 4 == 0 {
+            let ml = guard(|| zone.from_local_datetime(&l));
+            c.op(&format!("pr.steplocal {} {}", ztxt, sdt(&l)), &match &ml {
+                Ok(x) => smapped(x),
+                Err(()) => "panic".into(),
+            });
+            if let Ok(x) = &ml {
+                c.count(&format!("tzstep:zone:local:{}", &smapped(x)[..4]));
+                // first principles: every candidate reads `l`, carries the zone's offset at its instant
+                for z in cands(x) {
+                    if z.naive_local() != l || z.offset().fix().local_minus_utc() != zone.offset_at(z.timestamp()) {
+                        c.fail("step zone: a candidate of from_local_datetime is not an instant that reads the local time", &format!("zone {} local {} -> {}", ztxt, l, szs(&z)));
+                    }
+                }
+            }
+            if real {
+                if let Some(ud) = DateTime::from_timestamp(u, 0) {
+                    c.op(&format!("pr.steputc {} {}", ztxt, sdt(&ud.naive_utc())), &zone.offset_from_utc_datetime(&ud.naive_utc()).fix().local_minus_utc().to_string());
+                }
+            }
+        }
+
+        // ---- the resolver ----
+        let r = guard(|| p.to_datetime_with_timezone(&zone));
+        let s = show(r.clone(), szs);
+        c.op(&format!("pr.tzstep {} {}", dump, ztxt), &s);
+        let fkey = if f[OFF].is_none() {
+            "none"
+        } else if f[OFF] == Some(o1) && f[OFF] == Some(o2) {
+            "both"
+        } else if f[OFF] == Some(o1) {
+            "o1"
+        } else if f[OFF] == Some(o2) {
+            "o2"
+        } else {
+            "neither"
+        };
+        c.count(&format!("tzstep:{}:{}:{}", kind, cls, kind_of(&s)));
+        c.count(&format!("tzstep:fields:{}:off-{}:ts-{}:{}", if in_fold { "in-fold" } else { "elsewhere" }, fkey, if f[TS].is_some() { "given" } else { "none" }, kind_of(&s)));
+        if k < 3 {
+            c.sample(&format!("step zone {} [{}] ({}, {}) -> {}", ztxt, dump, kind, cls, s));
+        }
+        if r.is_err() {
+            c.fail("to_datetime_with_timezone (step zone) panicked", &format!("[{}] zone {}", dump, ztxt));
+        }
+        if kind == "flat" {
+            // a step zone without a step is a fixed zone
+            let fx = show(guard(|| p.to_datetime_with_timezone(&FixedOffset::east_opt(zone.o1).unwrap())), sz);
+            if fx != s {
+                c.fail("to_datetime_with_timezone: a zone with constant offset and FixedOffset differ", &format!("[{}] zone {} -> {} vs {}", dump, ztxt, s, fx));
+            }
+        }
+        if let Ok(Ok(v)) = &r {
+            let voff = v.offset().fix().local_minus_utc() as i64;
+            // (b) the offset field
+            if f[OFF].map_or(false, |o| o != voff) {
+                c.fail("to_datetime_with_timezone (zone with a fold): result offset differs from the supplied offset field", &format!("[{}] zone {} -> {}", dump, ztxt, s));
+            }
+            // the timestamp field (one less allowed for a leap-second result)
+            if let Some(g) = f[TS] {
+                let t = v.timestamp();
+                if !(g == t || (v.nanosecond() >= 1_000_000_000 && g == t + 1)) {
+                    c.fail("to_datetime_with_timezone (zone with a fold): result contradicts the timestamp field", &format!("[{}] zone {} -> {} (timestamp {})", dump, ztxt, s, t));
+                }
+            }
+            // the value is coherent with the zone
+            if voff != zone.offset_at(v.timestamp()) as i64 {
+                c.fail("to_datetime_with_timezone (step zone): result offset is not the zone's offset at the result instant", &format!("[{}] zone {} -> {}", dump, ztxt, s));
+            }
+            // (a) one of the candidates for the resolved local date-time
+            let guessed = match f[TS] {
+                Some(g) => DateTime::from_timestamp(g, f[NANO].unwrap_or(0) as u32).map(|d| zone.offset_from_utc_datetime(&d.naive_utc()).fix().local_minus_utc()),
+                None => Some(0),
+            };
+            match guessed.and_then(|g| p.to_naive_datetime_with_offset(g).ok()) {
+                Some(res) => {
+                    let cs = cands(&zone.from_local_datetime(&res));
+                    if !cs.iter().any(|x| x.naive_utc() == v.naive_utc() && x.offset().fix() == v.offset().fix()) {
+                        c.fail("to_datetime_with_timezone (step zone): result is not a candidate of from_local_datetime(resolved local)", &format!("[{}] zone {} -> {} (local {})", dump, ztxt, s, res));
+                    }
+                    if v.naive_local() != res {
+                        c.fail("to_datetime_with_timezone (step zone): wall clock of the result is not the resolved local date-time", &format!("[{}] zone {} -> {} (local {})", dump, ztxt, s, res));
+                    }
+                }
+                None => c.fail("to_datetime_with_timezone (step zone): Ok although the naive resolution fails", &format!("[{}] zone {} -> {}", dump, ztxt, s)),
+            }
+            // (c) the wall clock agrees with the supplied fields
+            let wl = v.naive_local();
+            if let Some(wf) = date_agrees(&f, &wl.date()) {
+                c.fail("to_datetime_with_timezone (step zone): date contradicts a supplied field", &format!("field {} of [{}] zone {} -> {}", wf, dump, ztxt, s));
+            }
+            let mut ft = f;
+            let t = wl.time();
+            if f[TS].is_some() {
+                // in the timestamp path omitted hour / minute / second are taken from the timestamp
+                if ft[HDIV].is_none() {
+                    ft[HDIV] = Some((t.hour() / 12) as i64);
+                }
+                if ft[HMOD].is_none() {
+                    ft[HMOD] = Some((t.hour() % 12) as i64);
+                }
+                if ft[MIN].is_none() {
+                    ft[MIN] = Some(t.minute() as i64);
+                }
+                if ft[SEC].is_none() {
+                    ft[SEC] = Some(t.second() as i64);
+                }
+            }
+            if let Some(wf) = time_agrees(&ft, &t) {
+                c.fail("to_datetime_with_timezone (step zone): time contradicts a supplied field", &format!("field {} of [{}] zone {} -> {}", wf, dump, ztxt, s));
+            }
+        }
+
+        // ---- expected resolution of derived sets (complete date and time, or the timestamp alone) ----
+        if mode <= 7 && !near_end && w != 1 {
+            let render = |off: i64| -> String {
+                let ud = l.checked_sub_offset(FixedOffset::east_opt(off as i32).unwrap()).unwrap();
+                format!("ok {} {}", sdt(&ud), off)
+            };
+            let ro = real_off as i64;
+            let oo = if ro == o1 { o2 } else { o1 }; // the offset on the other side of the transition
+            let want: Option<String> = if !real {
+                // a local time that does not exist
+                if f[TS].is_none() {
+                    Some("err Impossible".into())
+                } else {
+                    None
+                }
+            } else if mode >= 6 && f[TS] != Some(u) {
+                None
+            } else if f[TS] == Some(u) {
+                // the timestamp decides, also inside the fold; a contradicting offset is impossible
+                match f[OFF] {
+                    None => Some(render(ro)),
+                    Some(o) if o == ro => Some(render(ro)),
+                    Some(_) => Some("err Impossible".into()),
+                }
+            } else if f[TS].is_none() {
+                match f[OFF] {
+                    None => Some(if in_fold { "err NotEnough".into() } else { render(ro) }),
+                    Some(o) if o == ro => Some(render(ro)),
+                    Some(o) if o == oo && in_fold => Some(render(oo)),
+                    Some(_) => Some("err Impossible".into()),
+                }
+            } else {
+                None
+            };
+            if let Some(want) = want {
+                c.count(&format!("tzstep:expected:{}:{}", cls, kind_of(&want)));
+                if s != want {
+                    c.fail("to_datetime_with_timezone (step zone): derived fields resolve wrongly", &format!("[{}] zone {} ({}, local {}) -> {} (expected {})", dump, ztxt, cls, l, s, want));
+                }
+            }
+        }
+    }
+
+    // ---- the two inputs of finding F26 and their neighbours, literally ----
+    let zone = StepZone { t: 1_635_642_000, o1: 7200, o2: 3600 };
+    for (ts, off, want) in [
+        (1_635_640_200i64, Some(3600i64), "err Impossible"),
+        (1_635_643_800, Some(7200), "err Impossible"),
+        (1_635_640_200, Some(7200), "ok 16560907 1800 0 7200"),
+        (1_635_643_800, Some(3600), "ok 16560907 5400 0 3600"),
+        (1_635_640_200, None, "ok 16560907 1800 0 7200"),
+        (1_635_643_800, None, "ok 16560907 5400 0 3600"),
+    ] {
+        let mut f: Fields = [None; NF];
+        f[TS] = Some(ts);
+        f[OFF] = off;
+        let p = build(&f);
+        let s = show(guard(|| p.to_datetime_with_timezone(&zone)), szs);
+        c.op(&format!("pr.tzstep {} {} {} {}", dump_parsed(&p), zone.t, zone.o1, zone.o2), &s);
+        if s != want {
+            c.fail("to_datetime_with_timezone (zone with a fold): result contradicts the timestamp field", &format!("[{}] zone +02:00 -> +01:00 at 1635642000 -> {} (expected {})", dump_parsed(&p), s, want));
+        }
+    }
+}
+
 pub fn run(c: &mut Ctx) {
     let n = c.n(100_000, 1_000_000);
     for k in 0..n {
@@ -924,4 +1356,5 @@ pub fn run(c: &mut Ctx) {
     }
 
     run_set_twice(c);
+    run_step_zones(c);
 }
